@@ -81,7 +81,18 @@ pub fn extras(rec: &mut Rec, lm: &Landmarks, rng: &mut Rng, thorough: bool) {
         for (fi, f) in [Freq::GigaHertz, Freq::MegaHertz, Freq::KiloHertz, Freq::Hertz].iter().enumerate() {
             for q in qs_i {
                 m.rec.episode();
-                let r = catch(|| q * *f);
+                // (the trait spelling q.GHz() ... for half of them)
+                use hifitime::Frequencies;
+                let r = if q % 2 == 0 {
+                    catch(|| match fi {
+                        0 => q.GHz(),
+                        1 => q.MHz(),
+                        2 => q.kHz(),
+                        _ => q.Hz(),
+                    })
+                } else {
+                    catch(|| q * *f)
+                };
                 m.rec.ev("x_freq", format!("\"f\":{},\"q\":{},\"res\":{}", fi, jf64(q as f64), jres_dur(&r)), true);
             }
             for _ in 0..(if thorough { 4_000 } else { 300 }) {
